@@ -116,7 +116,9 @@ def strictWorld (v1w : CheckV1.World) : CheckV1.World :=
 def diagnose (w : CheckV2.World) (v1w : CheckV1.World) (want : String) : String :=
   let tainted := (checkSet w 2).any (fun o => match o with | .ok _ t => t | _ => false)
   let agrees (w' : CheckV2.World) : Bool := (modelClasses w' 2).all (fun c => c = want || !isDec c) && (modelClasses w' 2).any (· = want)
-  if agrees { w with fixTtuKey := true } then
+  if agrees w then
+    "unexplained (the model of the default strategy at concurrency 1 gives the expected answer: the deviation is specific to this strategy / schedule)"
+  else if agrees { w with fixTtuKey := true } then
     "V2-A the shared visited filter identifies a tuple-to-userset sub-problem by the parent object only (buildIterator key = tuple user), so a second relation of the same tuple cycle on that object is skipped"
   else if agrees { w with fixMarkOrder := true } then
     "V2-B the visited filter runs before the condition filter: a tuple dropped by its condition has already claimed the userset"
